@@ -16,6 +16,7 @@ type Block struct {
 	Del []int  `json:"del,omitempty"` // slots to delete, in request order
 	Add int    `json:"add,omitempty"` // number of leaves appended
 	Rem []int  `json:"rem,omitempty"` // ascending indexes (within the adds) to remember
+	Salt int   `json:"salt,omitempty"` // branch id: added leaves hash as LeafHash(Salt*1e6+slot), so that leaves re-added on another branch after an undo differ
 	DM  string `json:"dm,omitempty"`  // deletion mode that produced Del (coverage label)
 	AM  string `json:"am,omitempty"`  // addition mode that produced Add (coverage label)
 }
@@ -218,9 +219,12 @@ func applyToModel(f *model.Forest, b Block) {
 		f.Kill(s)
 	}
 	for i := 0; i < b.Add; i++ {
-		f.Add(model.LeafHash(len(f.Hashes)))
+		f.Add(leafHashOf(b.Salt, len(f.Hashes)))
 	}
 }
+
+// leafHashOf is the hash of the leaf added into the given slot on branch salt.
+func leafHashOf(salt, slot int) model.Hash { return model.LeafHash(salt*1000000 + slot) }
 
 // genHistory draws a whole block history from the empty accumulator.
 func genHistory(t *rapid.T, lim limits, remember bool) []Block {
